@@ -104,11 +104,8 @@ impl<A: Adapter + 'static> Adapter for Flate2Adapter<A> {
     /// * `ext` - The extension (last part of the string) of the requested objects     
     fn list_objects(&self, ext: &str) -> Result<Vec<String>> {
         let ext = ext.to_string() + ".flate"; // Change key to avoid mismatching cache objects
-        let result = self.backend.list_objects(&ext)?;
-        Ok(result
-            .into_iter()
-            .map(|k| k.trim_end_matches(".flate").to_string())
-            .collect())
+        // The backend removes the whole suffix (including the marker) from the names it returns
+        self.backend.list_objects(&ext)
     }
 }
 
